@@ -7,8 +7,11 @@ REG = dict(
         "5e-5, the noiseless-regime bounds 0.4*c*o/(b-a) and 0.83*sqrt(o/(b-a))) are numerical facts, NOT theorems: they are "
         "decided on every run by the Float model <-> numpy correspondence (against drift) and by an mpmath quadrature of two "
         "algebraically different convolution integrals (against the Spec)",
-        "not proved: the convolution identity P[Z+E<=y] = Phi(point) +- int_0^1 x^(c/2) dN(loc,scale^2) (stage 3), the accuracy of "
-        "the Chebyshev fallback, of the downward step for k=-1/2 and of the normal regime, Phi(+-inf) in {0,1} at Float",
+        "the Spec is taken in its mixture form H(t) = int_0^1 Phi((t-x)/s) d(x^(c/2)) (law of Z+E after conditioning on Z; the "
+        "independence/Fubini step to it is not formalised); from there the convolution identity H = Phi(point) + int_0^1 x^(c/2) dN "
+        "IS proved for every c >= 1",
+        "not proved: the accuracy of the Chebyshev fallback, of the downward step for k=-1/2 and of the normal regime, the "
+        "noiseless-regime constant 0.83 for c=1 (0.4*c*o/(b-a) for c>=2 is proved), Phi(+-inf) in {0,1} at Float",
         "IEEE-754 rounding in numpy/scipy (erf, exp, pow, cos) is not modelled; the comparator allows 1e-12 + 16 x the spread of "
         "the model under +-8-ulp jitter of every transcendental result and sends ill-conditioned cases (allowance above a tenth "
         "of the property's tolerance) to the oracle instead",
@@ -27,11 +30,14 @@ TEXT = dict(
     level="Universal Lean theorems about the single polymorphic definition Opda.Noisy.cdf/pdf that the driver runs at Float: "
           "0<=cdf<=1 and pdf>=0 in every regime (for every ordered field and every choice of Phi/phi/pow/cos/table in the series "
           "regime; unconditionally at R), values when loc is infinite, a=b,o>0 => exactly Normal(a,o^2), a=b,o=0 => point mass; "
-          "over R the code's upward recursion IS the Gaussian partial-moment recursion, so for even c Model = "
-          "clip(Phi(point) +- int_0^1 x^(c/2) dN) and for odd c Model = sum over pieces of int p_i dN, within sup|x^k - p| of the "
-          "true partial moment. The model is tied to the code on every run (Float, jitter-calibrated allowance, both sides of "
+          "over R the code's upward recursion IS the Gaussian partial-moment recursion and the convolution identity "
+          "int_0^1 Phi((t-x)/s) d(x^(c/2)) = Phi((t-1)/s) + int_0^1 x^(c/2) dN(t,s^2) holds for every c>=1, so for even c "
+          "Model = Spec exactly (cdf both shapes, pdf), for odd c Model = sum over pieces of int p_i dN, within sup|x^k - p| of "
+          "the Spec; in the noiseless regime the returned noise-free law is within 0.4*c*o/(b-a) of its convolution with the "
+          "noise (c>=2). The model is tied to the code on every run (Float, jitter-calibrated allowance, both sides of "
           "every switch point) and the property's own thresholds are evaluated against an mpmath convolution oracle.",
-    note="Partial: the 2.5e-5 / 1e-4 / 0.2 / 5e-5 figures and the noiseless-regime constants are numerical facts decided by "
-         "correspondence + oracle on every run, not theorems; the convolution identity (stage 3), the Chebyshev fallback's and the "
-         "normal regime's accuracy and float rounding are compared only.",
+    note="Partial: the 2.5e-5 / 1e-4 / 0.2 / 5e-5 figures and the c=1 noiseless constant 0.83 are numerical facts decided by "
+         "correspondence + oracle on every run, not theorems (the provable uniform bound for odd c is sup|x^k-p| <= 1.02*max_error, "
+         "up to 8e-4); the Chebyshev fallback's and the normal regime's accuracy, the downward step for k=-1/2 and float rounding "
+         "are compared only.",
 )
